@@ -185,3 +185,68 @@ func HDeltaSender() {
 var verifHarnesses = map[string]func(){
 	"HDeltaSender": HDeltaSender,
 }
+
+// sumRequest appends one request (index, header, checksum list for basis) to in.
+func sumRequest(in []byte, idx int32, basis []byte, b, s2 int, seed int32) []byte {
+	m := len(basis)
+	count := (m + b - 1) / b
+	in = putI32(in, idx)
+	in = putI32(in, int32(count))
+	in = putI32(in, int32(b))
+	in = putI32(in, int32(s2))
+	in = putI32(in, int32(m%b))
+	for i := 0; i < count; i++ {
+		blk := basis[i*b : min((i+1)*b, m)]
+		in = putI32(in, int32(refWeak(blk)))
+		sum2 := rsyncchecksum.Checksum2(seed, blk)
+		in = append(in, sum2[:s2]...)
+	}
+	return in
+}
+
+// HDeltaTwoFiles (C01/C02): two files requested in one session, each against its own basis.
+// Each file's token stream must reproduce that file (state carried from one file to the
+// next - match offsets, tables, hash state - must not leak).
+func HDeltaTwoFiles() {
+	n, m, b := vparam("n"), vparam("m"), vparam("b")
+	seed := nd_i32()
+	t0, b0 := nd_bytes(n), nd_bytes(m)
+	t1, b1 := nd_bytes(n), nd_bytes(m)
+	var in []byte
+	in = sumRequest(in, 0, b0, b, 16, seed)
+	in = sumRequest(in, 1, b1, b, 16, seed)
+	in = putI32(in, -1)
+	in = putI32(in, -1)
+	conn := newVconn(in)
+	st := newSenderTransfer(conn, seed, rsyncopts.VerifFlags{Server: true, Sender: true})
+	fl := &fileList{Files: []file{
+		{source: &oneFileSource{data: t0}, path: "a", Wpath: "a", regular: true, Length: int64(n)},
+		{source: &oneFileSource{data: t1}, path: "b", Wpath: "b", regular: true, Length: int64(n)},
+	}}
+	err := st.SendFiles(fl)
+	vassert(err == nil, "SendFiles returned an error")
+	if err != nil {
+		return
+	}
+	out := conn.out
+	count, rem := (m+b-1)/b, m%b
+	pos := 0
+	for f := 0; f < 2; f++ {
+		vassert(len(out) >= pos+20, "output shorter than index+header")
+		vassert(getI32(out, pos) == int32(f), "index echo")
+		basis, target := b0, t0
+		if f == 1 {
+			basis, target = b1, t1
+		}
+		r := refReceive(out, pos+20, basis, b, count, rem)
+		vassert(bytesEq(r.result, target), "token stream does not reproduce the file (two-file session)")
+		vassert(bytesEq(r.trailer, wholeSum(seed, target)), "whole-file checksum trailer (two-file session)")
+		pos = r.end
+		if r.refs > 0 {
+			vreach("blockref")
+		}
+	}
+	vreach("end")
+}
+
+func init() { verifHarnesses["HDeltaTwoFiles"] = HDeltaTwoFiles }
